@@ -274,6 +274,24 @@ func isOperator
   ensures the-arithmetic-comparison-and-word-operators-in-any-letter-case-and-nothing-else: result <==> (strings.EqualFold(s, "+") || strings.EqualFold(s, "-") || strings.EqualFold(s, "*") || strings.EqualFold(s, "/") || strings.EqualFold(s, "%") || strings.EqualFold(s, "^") || strings.EqualFold(s, "=") || strings.EqualFold(s, "==") || strings.EqualFold(s, "!=") || strings.EqualFold(s, "<>") || strings.EqualFold(s, ">") || strings.EqualFold(s, "<") || strings.EqualFold(s, ">=") || strings.EqualFold(s, "<=") || strings.EqualFold(s, "AND") || strings.EqualFold(s, "OR") || strings.EqualFold(s, "NOT") || strings.EqualFold(s, "LIKE") || strings.EqualFold(s, "IS"))
   loop 1 invariant forall(j, 0, $i, !strings.EqualFold(s, $s[j])) && len($s) == 19 && $s[0] == "+" && $s[1] == "-" && $s[2] == "*" && $s[3] == "/" && $s[4] == "%" && $s[5] == "^" && $s[6] == "=" && $s[7] == "==" && $s[8] == "!=" && $s[9] == "<>" && $s[10] == ">" && $s[11] == "<" && $s[12] == ">=" && $s[13] == "<=" && $s[14] == "AND" && $s[15] == "OR" && $s[16] == "NOT" && $s[17] == "LIKE" && $s[18] == "IS"
 
+// a column in a numeric expression: backticks dropped, a path read by the shared path reader and a plain name from the
+// row itself; the value must convert to a number that is not NaN, and a missing column is an error, never a silent zero
+func evaluateFieldNode
+  props C06 C05 C13
+  option assumed_frame
+  requires node != nil
+  observe nested := IsNestedField
+  observe pv := GetNestedField
+  observe pfound := GetNestedField#1
+  observe num := convertToFloat
+  observe nerr := convertToFloat#1
+  count conv := convertToFloat
+  before IsNestedField the-name-asked-about-is-the-columns-name-without-backticks: $arg0 == ite(len(node.Value) >= 2 && node.Value[0] == 96 && node.Value[len(node.Value) - 1] == 96, node.Value[1:len(node.Value) - 1], node.Value)
+  before GetNestedField a-path-is-read-from-this-row: $arg0 == boxof(data, map[string]any) && $arg1 == fieldName
+  before convertToFloat the-value-converted-is-the-columns-own: $arg0 == ite($nested, $pv, data[fieldName]) && ($nested ==> $pfound) && (!$nested ==> dom(data, fieldName))
+  atreturn a-value-is-returned-only-for-a-column-that-is-there-and-converts-to-a-number-that-is-no-nan: result1 == nil ==> $conv == 1 && $nerr == nil && result0 == $num
+  atreturn a-missing-column-is-an-error-not-a-zero: (($nested && !$pfound) || (!$nested && !dom(data, fieldName))) ==> result1 != nil && result0 == 0.0
+
 func parseFunctionCall
   props C06
   option safety
